@@ -72,6 +72,18 @@ CHECKS = {
    tech="same runs as C10; TLC checks +,-,* on integers against 64-bit wrapping limb arithmetic (ripple-carry / schoolbook on 8-bit limbs), / rules, mixed operations bit-for-bit against the operation on the converted integer, string + and *, and the absence of NaN results",
    text="On the same operand pairs: integer +, -, * must equal two's-complement wrapping arithmetic computed by TLC on limbs; / always yields a float and fails exactly when the divisor is integer 0 or float +-0; every operation with at least one float (and integer /) must be bit-identical to the same operation on the integer converted to float (executed by the same runtime - this is the statement's own definition, so no float model is needed); string + string concatenates, null acts as the empty string, string * n repeats max(n,0) times; no recorded float result is NaN (an error must be recorded instead).",
    note="trusted: as C10; float arithmetic itself (rounding) is not modelled - only its consistency with the conversion rule and the NaN rule"),
+ "C03": dict(engine="C", cat="exploration", design="6/C03",
+   tech="TLC generates the call matrix from the signature table exported from the real stdlib; every call runs through the real compiler and runtime in a worker process; TLC checks each recorded result with InKind against the compiler's own type for that call and against return_kind",
+   text="GenCalls.tla reads the signature table of all 200 stdlib functions (exported by the harness from Function::parameters/return_kind) and generates 45k call tuples: per function the base call, every candidate of every value kind (valid or invalid, edge values) in every parameter position as literal and as runtime-typed value, every enum variant plus an undeclared one, and pairwise edge values for every pair of parameters. Each tuple is rendered to a VRL call, compiled (as an infallible statement, else under `ok, err =`), and run. TLC checks: K1 an Ok value belongs (spec's InKind) to the TypeDef the real compiler computed for that call expression (hook H2) and its kind is among the documented return kinds; K2 a call typed infallible returned Ok; K3 a wrong-typed runtime argument produced an error or a well-typed value.",
+   note="trusted: the harness' VRL rendering of argument values; H2's record of the call expression's type; one/two-factor coverage of the argument space, not the full product"),
+ "C05": dict(engine="C", cat="exploration", design="6/C05",
+   tech="same call matrix as C03, each call in a killable worker process with a 10 s deadline; TLC checks the termination protocol (every call start has a call end; a `timeout` record is a call without end)",
+   text="Every call of the C03 matrix (45k tuples over all 200 functions, with extreme integers MIN/MAX/-1, infinities, empty and hostile strings in every position and pairwise) runs in a worker process under a 10 s deadline and a 6 GB address-space limit; a worker that does not answer is killed and recorded as `timeout`, one that dies as `died`. TLC requires every call to have ended.",
+   note="trusted: 10 s is two orders of magnitude above the slowest legitimate call observed (evidence: calls_slower_than_1s); output-size proportionality is not measured separately - unbounded growth shows up as timeout or worker death"),
+ "C33": dict(engine="C", cat="exploration", design="6/C33",
+   tech="source texts built from a TLC-defined token alphabet and token-level mutations of the repository's .vrl programs and stdlib examples; the real compiler's diagnostics are inspected and rendered in worker processes; TLC evaluates label well-formedness and rendering outcomes",
+   text="GenTokens.tla defines one representative token per lexer class plus multi-byte and escape-heavy variants. The driver builds every sequence of <= 2 tokens, seeded sequences of 3-7 tokens (with and without separating spaces), the 314 .vrl test programs and ~600 stdlib examples, and seeded token mutations of those (delete, duplicate, swap, replace, inject multi-byte identifiers / fields / strings) - 46k texts at the quick tier. Each is compiled by the real compiler in a killable worker; every diagnostic (errors and warnings) is inspected: TLC requires 0 <= start <= end <= len and both ends on UTF-8 character boundaries for every label, and that Formatter::to_string (plain and coloured) returned.",
+   note="trusted: str::is_char_boundary as the definition of a character boundary; the worker protocol; sampling beyond 2-token sequences"),
 }
 
 NA = {
